@@ -63,7 +63,7 @@ pub fn engines() -> Vec<EngineDef> {
             worker: multibuild::worker,
             replay: multibuild::replay,
             shrink: multibuild::shrink,
-            budget: |tier| if tier == "thorough" { (400_000, 1500.0, 2000) } else { (5_000, 150.0, 64) },
+            budget: |tier| if tier == "thorough" { (600_000, 1500.0, 2000) } else { (9_600, 150.0, 64) },
             rule: multibuild::RULE,
             assumptions: multibuild::ASSUMPTIONS,
             real: &["avra_lib (all of it) called from 1-4 real OS threads", "the process-global DEVICES table, thread-locals and statics of the tree as they are", "Rust std", "kernel tmpfs"],
@@ -296,7 +296,7 @@ fn minimise(e: &EngineDef, v: &Violation) -> (Violation, u32) {
     'outer: loop {
         let cands = (e.shrink)(&best.scenario);
         for c in cands {
-            if tried >= 400 || now_secs() - start > 90.0 {
+            if tried >= 1500 || now_secs() - start > 180.0 {
                 break 'outer;
             }
             tried += 1;
